@@ -232,12 +232,7 @@ func glslPreset(r *rng, p *program) proto.GLSLOpts {
 
 func hlslPreset(r *rng, p *program) proto.HLSLOpts {
 	o := proto.HLSLOpts{ShaderModel: 1, FakeMissingBindings: true, ZeroInitWorkgroup: true, RestrictIndexing: true, ForceLoopBounding: true}
-	switch r.intn(12) {
-	case 10:
-		o.SamplerBufferMap = true
-	case 11:
-		o.DynOffsets = true
-		o.SamplerBufferMap = true
+	switch r.intn(14) {
 	case 0, 1, 2:
 	case 3:
 		o.ShaderModel = 0
@@ -245,10 +240,13 @@ func hlslPreset(r *rng, p *program) proto.HLSLOpts {
 		o.ShaderModel = uint8(2 + r.intn(6))
 	case 5:
 		o.RestrictIndexing, o.ForceLoopBounding, o.ZeroInitWorkgroup = false, false, false
-	case 6:
+	case 6, 12, 13:
+		// an explicit binding table; its CONTENT is drawn, so that a caller
+		// that edits its table between two calls (same keys, new targets) occurs
 		if p != nil {
+			base, sp := uint32(r.intn(4)), uint32(r.intn(3))
 			for i, b := range p.info.Bindings {
-				o.BindingMap = append(o.BindingMap, proto.BindingTarget{Binding: b, Target: uint32(i + 1), Space: uint32(i % 3)})
+				o.BindingMap = append(o.BindingMap, proto.BindingTarget{Binding: b, Target: base + uint32(i), Space: (sp + uint32(i)) % 3})
 			}
 		}
 	case 7:
@@ -259,6 +257,11 @@ func hlslPreset(r *rng, p *program) proto.HLSLOpts {
 		if p != nil && len(p.info.EntryPoints) > 0 {
 			o.EntryPoint = pick(r, p.info.EntryPoints).Name
 		}
+	case 10:
+		o.SamplerBufferMap = true
+	case 11:
+		o.DynOffsets = true
+		o.SamplerBufferMap = true
 	}
 	return o
 }
